@@ -186,6 +186,7 @@ class Module:
         except SyntaxError as e:
             raise AnalysisError('module %s does not parse: %s' % (path, e))
         strip_annotations(self.tree)
+        self.renamed = canonicalise_private_names(self.tree, name)
         canonicalise_conditions(self.tree)
         desugar_map_filter(self.tree)
         self.inlined = inline_expression_helpers(self.tree)
@@ -900,6 +901,120 @@ def desugar_map_filter(tree):
             return ast.copy_location(g, n)
     D().visit(tree)
     ast.fix_missing_locations(tree)
+
+
+def canonicalise_private_names(tree, modname):
+    """Private names are free to change; the rules know them by the names they have today.  The private attributes and
+    methods the rules refer to are therefore *found by their role* in the code and renamed to today's names before
+    anything else looks at the module (a no-op on the pinned tree).  Roles:
+      data:  TexExpr.__init__ stores its `contents` parameter in <_contents>; TexText its `text` in <_text>; TexEnv its
+             `begin`/`end` in <_begin>/<_end>; TexNode.descendants returns self.<__descendants>(); the TexArgs method
+             that calls TexGroup.parse is <__coerce>; the zero-argument TexExpr method that just returns True is
+             <_supports_contents>; the private method called first by TexExpr.append/insert/remove is
+             <_assert_supports_contents>;
+      utils: Buffer.position returns self.<__i>; Buffer.__init__ binds [] to <__queue>, iter(<iterator>) to <__iterator>
+             and its parameters join/init/empty to <__join>/<__init>/<__empty>; Token.__iter__ returns
+             iter(self.<__iter>()).
+    Returns {found name: canonical name} for the names that were changed."""
+    classes = {c.name: c for c in tree.body if isinstance(c, ast.ClassDef)}
+
+    def method(cname, mname, deco=None):
+        c = classes.get(cname)
+        if c is None:
+            return None
+        for st in c.body:
+            if isinstance(st, ast.FunctionDef) and st.name == mname:
+                decos = [ast.unparse(d) for d in st.decorator_list]
+                if deco is None and not any(d.endswith('.setter') for d in decos):
+                    return st
+                if deco is not None and deco in decos:
+                    return st
+        return None
+
+    def self_attr_assigned_from(fn, pred):
+        if fn is None:
+            return None
+        for n in ast.walk(fn):
+            if isinstance(n, ast.Assign) and len(n.targets) == 1 and isinstance(n.targets[0], ast.Attribute) \
+                    and isinstance(n.targets[0].value, ast.Name) and n.targets[0].value.id == 'self' and pred(n.value):
+                return n.targets[0].attr
+        return None
+
+    def mentions(param):
+        return lambda v: any(isinstance(x, ast.Name) and x.id == param for x in ast.walk(v))
+
+    def is_name(param):
+        return lambda v: isinstance(v, ast.Name) and v.id == param
+    found = {}
+    if modname == 'data':
+        found['_contents'] = self_attr_assigned_from(method('TexExpr', '__init__'), mentions('contents'))
+        found['_text'] = self_attr_assigned_from(method('TexText', '__init__'), is_name('text'))
+        found['_begin'] = self_attr_assigned_from(method('TexEnv', '__init__'), is_name('begin'))
+        found['_end'] = self_attr_assigned_from(method('TexEnv', '__init__'), is_name('end'))
+        d = method('TexNode', 'descendants', 'property')
+        if d is not None:
+            for n in ast.walk(d):
+                if isinstance(n, ast.Return) and isinstance(n.value, ast.Call) and isinstance(n.value.func, ast.Attribute) \
+                        and isinstance(n.value.func.value, ast.Name) and n.value.func.value.id == 'self' and not n.value.args:
+                    found['__descendants'] = n.value.func.attr
+        c = classes.get('TexArgs')
+        if c is not None:
+            for st in c.body:
+                if isinstance(st, ast.FunctionDef) and st.name.startswith('_') and not st.name.endswith('__') and any(
+                        isinstance(x, ast.Attribute) and x.attr == 'parse' and isinstance(x.value, ast.Name) and x.value.id == 'TexGroup'
+                        for x in ast.walk(st)):
+                    found['__coerce'] = st.name
+        c = classes.get('TexExpr')
+        if c is not None:
+            for st in c.body:
+                if isinstance(st, ast.FunctionDef) and st.name.startswith('_') and not st.name.endswith('__') and len(st.args.args) == 1:
+                    body = [b for b in st.body if not (isinstance(b, ast.Expr) and isinstance(b.value, ast.Constant))]
+                    if len(body) == 1 and isinstance(body[0], ast.Return) and isinstance(body[0].value, ast.Constant) \
+                            and body[0].value.value is True:
+                        found['_supports_contents'] = st.name
+            firsts = set()
+            for mname in ('append', 'insert', 'remove'):
+                m = method('TexExpr', mname)
+                if m is None:
+                    continue
+                body = [b for b in m.body if not (isinstance(b, ast.Expr) and isinstance(b.value, ast.Constant))]
+                if body and isinstance(body[0], ast.Expr) and isinstance(body[0].value, ast.Call) and isinstance(body[0].value.func, ast.Attribute) \
+                        and isinstance(body[0].value.func.value, ast.Name) and body[0].value.func.value.id == 'self' \
+                        and body[0].value.func.attr.startswith('_') and not body[0].value.args:
+                    firsts.add(body[0].value.func.attr)
+            if len(firsts) == 1:
+                found['_assert_supports_contents'] = firsts.pop()
+    elif modname == 'utils':
+        p_ = method('Buffer', 'position', 'property')
+        if p_ is not None:
+            for n in ast.walk(p_):
+                if isinstance(n, ast.Return) and isinstance(n.value, ast.Attribute) and isinstance(n.value.value, ast.Name) \
+                        and n.value.value.id == 'self':
+                    found['__i'] = n.value.attr
+        init = method('Buffer', '__init__')
+        found['__queue'] = self_attr_assigned_from(init, lambda v: isinstance(v, ast.List) and not v.elts)
+        found['__iterator'] = self_attr_assigned_from(init, lambda v: isinstance(v, ast.Call) and ast.unparse(v.func) == 'iter')
+        for prm, canon in (('join', '__join'), ('init', '__init'), ('empty', '__empty')):
+            found[canon] = self_attr_assigned_from(init, is_name(prm))
+        it = method('Token', '__iter__')
+        if it is not None:
+            for n in ast.walk(it):
+                if isinstance(n, ast.Call) and isinstance(n.func, ast.Attribute) and isinstance(n.func.value, ast.Name) \
+                        and n.func.value.id == 'self' and n.func.attr.startswith('_') and not n.func.attr.endswith('__'):
+                    found['__iter'] = n.func.attr
+    ren = {actual: canon for canon, actual in found.items() if actual is not None and actual != canon}
+    if not ren:
+        return {}
+    # the canonical names must be free, and the mapping one-to-one
+    used = {n.attr for n in ast.walk(tree) if isinstance(n, ast.Attribute)} | {n.name for n in ast.walk(tree) if isinstance(n, ast.FunctionDef)}
+    if len(set(ren.values())) != len(ren) or any(c in used for c in ren.values()):
+        return {}
+    for n in ast.walk(tree):
+        if isinstance(n, ast.Attribute) and n.attr in ren:
+            n.attr = ren[n.attr]
+        elif isinstance(n, ast.FunctionDef) and n.name in ren:
+            n.name = ren[n.name]
+    return ren
 
 
 def strip_annotations(tree):
